@@ -237,8 +237,11 @@ class Model():
             )
 
         # First remove all of the associations
-        for association in asset.associations:
-            self.remove_asset_from_association(asset, association)
+        for association in list(asset.associations):
+            # A reflexive association is listed once per side and was
+            # already dealt with when processing the first occurrence.
+            if any(association is assoc for assoc in asset.associations):
+                self.remove_asset_from_association(asset, association)
 
         # Also remove all of the entry points
         for attacker in self.attackers:
